@@ -74,15 +74,56 @@ func propC03(c *Ctx) {
 		}
 		return false
 	}
+	// the walk merged with the linkage loop: `below := localHash; for i := range blocks { …Equal(blocks[i].
+	// Header.Parent, below)…; below = blocks[i].Header.Hash }` – the value compared with is carried by the
+	// loop and is the recorded hash in the first iteration, where the element is element 0
+	var mergedHdr *ssa.BasicBlock
+	var mergedEnter, firstIter []Edge
+	carriedInit := func(op eqOperand) (eqOperand, *ssa.BasicBlock, bool) {
+		v := op.val
+		if v == nil {
+			v = op.root // an operand seen through a comparing helper
+		}
+		if v == nil || len(op.chain) != 0 {
+			return eqOperand{}, nil, false
+		}
+		ph, isPhi := stripConv(v).(*ssa.Phi)
+		if !isPhi || len(ph.Edges) != 2 {
+			return eqOperand{}, nil, false
+		}
+		lp := naturalLoop(ph.Block())
+		if lp == nil {
+			return eqOperand{}, nil, false
+		}
+		var initV ssa.Value
+		for i, e := range ph.Edges {
+			if !lp[ph.Block().Preds[i]] {
+				initV = stripConv(e)
+			}
+		}
+		if initV == nil {
+			return eqOperand{}, nil, false
+		}
+		r, ch := fieldChain(initV)
+		return eqOperand{initV, r, ch}, ph.Block(), true
+	}
 	for _, cmp := range eqComparisonsIn([]*ssa.Function{ld}) {
 		var other eqOperand
+		var hdr *ssa.BasicBlock
 		switch {
 		case isRecordedHash(cmp.ops[0]):
 			other = cmp.ops[1]
 		case isRecordedHash(cmp.ops[1]):
 			other = cmp.ops[0]
 		default:
-			continue
+			for k := 0; k < 2; k++ {
+				if in, h, ok := carriedInit(cmp.ops[k]); ok && isRecordedHash(in) {
+					other, hdr = cmp.ops[1-k], h
+				}
+			}
+			if hdr == nil {
+				continue
+			}
 		}
 		if !chainIs(other.chain, fHeader, fParent) {
 			continue
@@ -91,13 +132,56 @@ func propC03(c *Ctx) {
 		if !ok {
 			continue
 		}
-		if n, ok := constInt(idx); !ok || n != 0 {
+		if hdr != nil {
+			// the element is the loop's own index, and the loop starts at element 0
+			lo, _, enter, header, isLoop := (&affEnv{}).loopRange(idx)
+			if !isLoop || header != hdr || !linEq(lo, konst(0)) {
+				continue
+			}
+			mergedHdr, mergedEnter = hdr, enter
+			fi, _ := cmpEdges(ld, func(b *ssa.BinOp) bool {
+				n, isK := constInt(b.Y)
+				return b.Op == token.EQL && isK && n == 0 && (b.X == idx || stripConv(b.X) == stripConv(idx))
+			})
+			firstIter = fi
+		} else if n, ok := constInt(idx); !ok || n != 0 {
 			continue
 		}
 		firstSlice = s
 		eqCall = cmp.call
 		t, f := boolEdges(cmp.call)
 		eqTrue, eqFalse = append(eqTrue, t...), append(eqFalse, f...)
+		// `len(parent) != 32 || Equal(…)` evaluated as a value: the merged condition is true when the hashes are
+		// equal or the plan carries no parent hash
+		if refs := cmp.call.Referrers(); refs != nil {
+			absent := absentEdges(ld, fHeader, fParent)
+			for _, ref := range *refs {
+				ph, isPhi := ref.(*ssa.Phi)
+				if !isPhi {
+					continue
+				}
+				good := true
+				for i, e := range ph.Edges {
+					if e == ssa.Value(cmp.call) {
+						continue
+					}
+					k, isK := e.(*ssa.Const)
+					isAbsent := false
+					for _, ae := range absent {
+						if ae.From == ph.Block().Preds[i] && ae.To == ph.Block() {
+							isAbsent = true
+						}
+					}
+					if !isK || k.Value == nil || k.Value.String() != "true" || !isAbsent {
+						good = false
+					}
+				}
+				if good {
+					pt, _ := boolEdges(ph)
+					eqTrue = append(eqTrue, pt...)
+				}
+			}
+		}
 	}
 	c.Check("R3.1", "load/compare-localHash-with-first-parent", ld.Pos(), eqCall != nil, "load compares its localHash parameter with blocks[0].Header.Parent")
 	nReorgRet := 0
@@ -116,7 +200,12 @@ func propC03(c *Ctx) {
 			continue
 		}
 		nReorgRet++
-		c.Check("R3.1", fmt.Sprintf("load/return-ErrReorg#%d", nReorgRet), instrPos(r), eqCall != nil && (guardedByEdges(ld, r, eqFalse) || guardedByEdges(ld, r, passOn)),
+		okRet := eqCall != nil && (guardedByEdges(ld, r, eqFalse) || guardedByEdges(ld, r, passOn))
+		if okRet && mergedHdr != nil && !guardedByEdges(ld, r, passOn) {
+			// in the merged walk the recorded hash is what is compared with in the first iteration only
+			okRet = len(firstIter) > 0 && guardedByEdges(ld, r, firstIter)
+		}
+		c.Check("R3.1", fmt.Sprintf("load/return-ErrReorg#%d", nReorgRet), instrPos(r), okRet,
 			"a reorg is signalled only on the edge where the hashes differ")
 	}
 	if nReorgRet == 0 {
@@ -163,7 +252,19 @@ func propC03(c *Ctx) {
 					return chainIs(chain, fHeader, fParent)
 				})
 				esc = append(esc, lenNe...)
-				c.Check("R3.1", fmt.Sprintf("load/success-return#%d-needs-linkage", i+1), instrPos(r), guardedByEdges(ld, r, esc),
+				esc = append(esc, absentEdges(ld, fHeader, fParent)...)
+				okSucc := guardedByEdges(ld, r, esc)
+				if mergedHdr != nil {
+					// every iteration that goes on (or leaves with the blocks) has passed the comparison – the first
+					// one in particular; a result without blocks does not get as far as the walk
+					okSucc = len(mergedEnter) > 0
+					for _, ed := range mergedEnter {
+						if hit, _ := reach(Site{ed.To, -1}, func(in ssa.Instruction) bool { return in.Block() == mergedHdr || in == ssa.Instruction(r) }, newCuts().addEdges(esc)); hit {
+							okSucc = false
+						}
+					}
+				}
+				c.Check("R3.1", fmt.Sprintf("load/success-return#%d-needs-linkage", i+1), instrPos(r), okSucc,
 					"blocks are returned only when the first parent equals the recorded hash (or the plan carries no parent hash)")
 			}
 		}
@@ -899,6 +1000,47 @@ func linkageEveryPair(c *Ctx, sp linkageSpec) (bool, string) {
 	type walker struct {
 		init ssa.Value // index in the first iteration
 		next ssa.Value // index expression assigned for the next iteration
+		ext  bool      // the first iteration compares with something that is not a block of the sequence
+	}
+	// a hash that is carried along: below := <recorded hash>; loop { …; below = blocks[e(i)].Header.Hash }:
+	// in the iteration with index i it is the hash of e(i-1) (and the recorded hash in the first one)
+	movingHash := func(x ssa.Value) (*walker, bool) {
+		if x == nil {
+			return nil, false
+		}
+		ph, ok := stripConv(reg.Resolve(stripConv(x))).(*ssa.Phi)
+		if !ok || len(ph.Edges) != 2 {
+			return nil, false
+		}
+		lp := naturalLoop(ph.Block())
+		if lp == nil {
+			return nil, false
+		}
+		wk := &walker{ext: true}
+		for i, ed := range ph.Edges {
+			if !lp[ph.Block().Preds[i]] {
+				continue
+			}
+			for _, lf := range phiLeaves(ed) {
+				if lf.Val == ssa.Value(ph) {
+					return nil, false // an iteration may keep the old hash
+				}
+				lv := stripConv(lf.Val)
+				root, chain := fieldChain(lv)
+				if recv, isM := valueMethodArg(lv, "eth", "Block", "Hash"); isM {
+					root, chain = recv, []*types.Var{fHeader, fHash}
+				}
+				if !chainIs(chain, fHeader, fHash) {
+					return nil, false
+				}
+				idx, isEl := elemIdx(root)
+				if !isEl || (wk.next != nil && wk.next != idx) {
+					return nil, false
+				}
+				wk.next = idx
+			}
+		}
+		return wk, wk.next != nil
 	}
 	movingPtr := func(x ssa.Value) (*walker, bool) {
 		r := stripConv(x)
@@ -1006,6 +1148,15 @@ func linkageEveryPair(c *Ctx, sp linkageSpec) (bool, string) {
 						hashWalk = wk
 					}
 				}
+				if hashWalk == nil && len(op.chain) == 0 && !chainIs(chain, fHeader, fHash) {
+					carried := a
+					if carried == nil {
+						carried = op.root // an operand seen through a comparing helper
+					}
+					if wk, ok := movingHash(carried); ok {
+						hashWalk = wk
+					}
+				}
 			}
 		}
 		if parentIdx != nil && hashIdx == nil && hashWalk != nil {
@@ -1073,11 +1224,15 @@ func linkageEveryPair(c *Ctx, sp linkageSpec) (bool, string) {
 				continue
 			}
 			wantHi := aff.lenOf(sp.blocksRep, 0).sub(konst(1))
-			if shifted && hashWalk != nil && !linEq(aff.Of(hashWalk.init), lo.add(k)) {
+			if shifted && hashWalk != nil && !hashWalk.ext && !linEq(aff.Of(hashWalk.init), lo.add(k)) {
 				linkDetail = "the pointer to the previous block does not start at the block before the first one compared"
 				continue
 			}
-			if !linEq(lo.add(k), konst(0)) || !linEq(hi.add(k), wantHi) {
+			wantLo := konst(0)
+			if shifted && hashWalk != nil && hashWalk.ext {
+				wantLo = konst(-1) // the first iteration compares element 0 with what was carried in: the pairs start with the second
+			}
+			if !linEq(lo.add(k), wantLo) || !linEq(hi.add(k), wantHi) {
 				linkDetail = fmt.Sprintf("the loop compares the pairs starting at [%s] up to but excluding [%s]; every adjacent pair is [0] … [%s]", lo.add(k), hi.add(k), wantHi)
 				continue
 			}
